@@ -26,6 +26,7 @@ FILES = {
     'AE': {'iso': 'A.B;1', 'rr': 'a.b', 'joliet': 'a.b', 'udf': 'a.b'},
     'AE1': {'iso': 'A.B1;1', 'rr': 'a.b1', 'joliet': 'a.b1', 'udf': 'a.b1'},
     'LONGRR': {'iso': 'LONG.;1', 'rr': 'r' * 251, 'joliet': 'long', 'udf': 'long'},
+    'CAT': {'iso': 'BOOT.CAT;1', 'rr': 'boot.cat', 'joliet': 'boot.cat', 'udf': 'boot.cat'},
     'UNI': {'iso': 'UNI.;1', 'rr': 'unié', 'joliet': 'ä中', 'udf': 'ä中'},
 }
 
@@ -689,6 +690,18 @@ def sigma7(model, profile='quick'):
     if cfg.get('rr'):
         kw['rr_name'] = 'l'
     add(['add_hard_link', kw])
+    # a second name with the *same identifier* in another directory (records that compare equal but are not the
+    # same record); the directory is created in the same step when it does not exist yet
+    mk = [] if '/D1' in model.tree('iso') else [add_dir(cfg, 'D1')]
+    kw = {'iso_old_path': '/A.;1', 'iso_new_path': '/D1/A.;1'}
+    if cfg.get('rr'):
+        kw['rr_name'] = 'a'
+    cand.append(mk + [['add_hard_link', kw]])
+    if cfg.get('joliet'):
+        cand.append(mk + [['add_hard_link', {'iso_old_path': '/A.;1', 'joliet_new_path': '/d1/a'}]])
+        cand.append(mk + [['add_hard_link', {'joliet_old_path': '/a', 'joliet_new_path': '/d1/a'}]])
+    if cfg.get('udf'):
+        cand.append(mk + [['add_hard_link', {'udf_old_path': '/a', 'udf_new_path': '/d1/a'}]])
     add(['add_eltorito', {'bootfile_path': '/A.;1'}])
     add(['add_eltorito', {'bootfile_path': '/B.;1'}])
     add(['rm_eltorito', {}])
